@@ -201,6 +201,21 @@ def _check_role(rep: Report, rule: str, f: FuncInfo, store: int, role: str, matc
 def guarded_stores(rep: Report, prog: Program) -> None:
     rule = 'C20-D2 guarded-binding'
     im = prog.cls(FG, 'InterpretationMixin')
+    # who binds: item stores into <x>.factors / <x>.domains occur only in add_factor / add_domain, whose guards are decided below;
+    # every other way in (new_finite_factor, the JSON reader, copies) goes through them or replaces the whole table
+    n_w = 0
+    for g in prog.all_functions():
+        if g.is_lambda:
+            continue
+        for x in own_nodes(g.node):
+            if isinstance(x, ast.Subscript) and isinstance(x.ctx, (ast.Store, ast.Del)) and isinstance(x.value, ast.Attribute) and x.value.attr in ('factors', 'domains'):
+                n_w += 1
+                owner = {'factors': 'add_factor', 'domains': 'add_domain'}[x.value.attr]
+                okw = g.name == owner
+                rep.ob(rule + ' single writer', g.fq(), norm(x) + ' = ...', g.loc(x), okw,
+                       f"the guarded store of {owner}" if okw else
+                       f"binds into `{x.value.attr}` without going through {owner}: the checks that make a binding well-formed (terminal label, not bound yet, arity, domains) are skipped")
+    rep.floor('C20-D2 single writer', n_w, 2)
     # ---- add_factor
     f = im.methods.get('add_factor')
     if f is None:
